@@ -68,13 +68,16 @@ CLAIMS = {
          "_where_should_it_be at unit level.",
          "Trusted: Coq kernel + vm_compute; model; harness (choice patched as module attribute; list(universe) order observed).",
          "DESIGN.md section 4, C11"),
- "C18": ("Coq model of the index-based scanner, from_string, str(Ranking), file reader/writer; totality theorems + exhaustive text correspondence",
-         "PARTIAL proof. Proved for every ASCII string: the scanner loop never runs out of fuel (en_str strictly increases), hence "
-         "parse / from_string / the file reader return a value or ValueError and nothing else. The model reproduces Python's find/rfind/"
-         "slice clamping, strip, split, int(); it agrees with the library on EVERY string of length <= 4 (5) over the format alphabet and on "
-         "edited near-valid renderings. The round-trip statements (string and file) are NOT theorems in this version: they are decided by "
-         "evaluating printer and parser of the model next to the library's on each generated ranking/dataset inside Coq.",
-         "Trusted: Coq kernel + vm_compute; hand-written model; harness; ASCII only; names restricted as in DESIGN.md C18.",
+ "C18": ("Coq model of the index-based scanner, from_string, str(Ranking), file reader/writer; totality and round-trip theorems + exhaustive text correspondence",
+         "Machine-checked for every ASCII string: the scanner loop never runs out of fuel, hence parse / from_string / the file reader return a "
+         "value or ValueError and nothing else. Machine-checked for every printable ranking (non-empty disjoint buckets of non-negative integers, "
+         "or of strings without [ ] { } , : and without white space at either end that are not all digits): from_string of its text - brace or "
+         "bracket notation, any surrounding white space, any prefix ending with a colon - gives the ranking back (C18_roundtrip_string, "
+         "C18_roundtrip_string_prefixed); for every dataset of such rankings (all integers, or all strings int() refuses, no newline inside a "
+         "name) reading the written text gives the dataset back (C18_roundtrip_file). The model reproduces Python's find/rfind/slice clamping, "
+         "strip, split, int(); it agrees with the library on EVERY string of length <= 4 (5) over the format alphabet, on edited near-valid "
+         "renderings and on generated rankings / datasets (string both notations, file).",
+         "Trusted: Coq kernel + vm_compute; hand-written model tied by correspondence; harness; ASCII only.",
          "DESIGN.md section 4, C18"),
  "C16": ("Coq invariant theorems over a Gallina model of Ranking/Dataset (typed names) + history correspondence judged in Coq",
          "Machine-checked for all inputs: the Ranking constructor yields duplicate-free disjoint buckets whose positions dictionary has the "
